@@ -64,14 +64,30 @@ Definition script_node : snode :=
 
 Definition is_active (n : str) : bool := mem_str n Tables.active_elements.
 
-(* _deactivate_deleted_active_elements: every script/style below a <del> is wrapped in an inert template *)
+(* _deactivate_deleted_active_elements: every script/style below a <del> is wrapped in an inert template; when it
+   sits in embedded SVG or MathML, where a <template> is no HTML template, the outermost svg/math element is wrapped
+   instead (once) *)
+Definition is_foreign (n : str) : bool := str_eqb n (s2l "svg") || str_eqb n (s2l "math").
+Definition inert_wrap (n : snode) : snode :=
+  SEl (s2l "template") [(s2l "class", s2l "wm-diff-deleted-inert")] false [n].
+
+(* does the tree hold a script/style that has a <del> ancestor? *)
+Fixpoint deleted_active (under_del : bool) (n : snode) : bool :=
+  match n with
+  | SText _ => false
+  | SEl name _ _ children =>
+      (under_del && is_active name) || existsb (deleted_active (under_del || str_eqb name (s2l "del"))) children
+  end.
+
 Fixpoint deactivate (under_del : bool) (n : snode) : snode :=
   match n with
   | SText _ => n
   | SEl name attrs void children =>
+      if is_foreign name then (if deleted_active under_del n then inert_wrap n else n)
+      else
       let me := SEl name attrs void (map (deactivate (under_del || str_eqb name (s2l "del"))) children) in
       if under_del && is_active name
-      then SEl (s2l "template") [(s2l "class", s2l "wm-diff-deleted-inert")] false [me]
+      then inert_wrap me
       else me
   end.
 
